@@ -40,17 +40,25 @@ _ASSUME_B = [
 
 PROPS = {
     "C05": dict(
-        test="TestC05", engine="B", level="exploration", components="compile", nondeterminism_is_violation=True,
-        quick_checks=1500, thorough_checks=20000, thorough_timeout=7200,
+        level="exploration", components="compile", nondeterminism_is_violation=True,
+        parts=[dict(test="TestC05", engine="B", quick_checks=1500, thorough_checks=20000),
+               # the same test against the build with simulator-visible mutexes (DESIGN.md 2.2)
+               dict(test="TestC05", engine="B", variant="vismutex", quick_checks=500, thorough_checks=8000)],
+        thorough_timeout=7200,
         rule="a case = generated import DAG workload (2-8 files, messages/enums/extensions/custom options, optional injected defects) "
              "x 1-2 Compile calls (MaxParallelism in {1,2,3,4,16}, permuted/duplicated request order, nil or fresh Symbols) "
              "x scheduler tape/disabled-hook set/starved victim; distinct = distinct (workload, runs, trace hash); "
              "non-trivial = the unsimulated reference compile succeeds (so descriptor bytes are compared) and the workload has >1 file",
-        assumptions=_ASSUME_B + ["oracle = unsimulated MaxParallelism=1 compile of the same inputs (run twice)"],
+        assumptions=_ASSUME_B + ["oracle = unsimulated MaxParallelism=1 compile of the same inputs (run twice)",
+                                 "the second part runs the same test against a build in which the mutexes of compiler.go and linker/symbols.go are simulator-visible (simhook.Mutex/RWMutex substituted through the overlay): goroutines are parked inside critical sections and lock waits are scheduler states there"],
     ),
     "C06": dict(
-        test="TestC06", engine="B", level="exploration", components="compile",
-        quick_checks=5000, thorough_checks=40000, thorough_timeout=7200,
+        level="exploration", components="compile",
+        parts=[dict(test="TestC06", engine="B", quick_checks=5000, thorough_checks=40000),
+               # the same test against a build in which the mutexes of compiler.go and
+               # linker/symbols.go are simulator-visible (DESIGN.md 2.2)
+               dict(test="TestC06", engine="B", variant="vismutex", quick_checks=2500, thorough_checks=20000)],
+        thorough_timeout=7200,
         rule="a case = random import digraph on 1-6 files (self-imports, cycles of any length, diamonds, imports of missing files; "
              "files contain only imports and one empty message) x non-empty requested subset in random order x MaxParallelism 1-4 x "
              "default or never-aborting reporter x scheduler tape/disabled hooks/starved victim; distinct = distinct (graph, request, "
